@@ -13,7 +13,7 @@ CANARIES = ['<sCrIpT/q="\'>&x', '<ScRiPt>alert(1)</ScRiPt>', '"><sCrIpT>', '\'><
 def triggers(rng):
     """list of (name, function(canary, rid) -> (request bytes, needs))"""
     return ['denied_path', 'denied_query', 'invalid_url_host', 'invalid_url_scheme', 'dns_fail', 'connect_fail', 'read_timeout', 'too_big', 'unsup_method', 'auth_required_user',
-            'zero_size', 'cannot_forward', 'invalid_req_version', 'invalid_req_method', 'denied_header_host', 'conn_timeout', 'bad_port', 'ftp_url', 'urn_url', 'long_header_name', 'unsup_version', 'expect_unsupported', 'bad_port_plain']
+            'zero_size', 'cannot_forward', 'invalid_req_version', 'invalid_req_method', 'denied_header_host', 'conn_timeout', 'bad_port', 'ftp_url', 'urn_url', 'long_header_name', 'unsup_version', 'expect_unsupported', 'bad_port_plain', 'denied_hdr_value', 'denied_hdr_value', 'denied_host_markup']
 
 @register
 class C33(hc.PProp):
@@ -38,6 +38,10 @@ class C33(hc.PProp):
             'http_access deny denyme', 'http_access deny denyq', 'http_access deny badhost', 'http_access deny needauth !authed', 'http_access allow all',
             'read_timeout 5 seconds', 'connect_timeout 3 seconds', 'request_body_max_size 1 KB', 'dns_timeout 5 seconds', 'forward_timeout 10 seconds',
             'error_default_language en' if rng.random() < 0.5 else 'email_err_data on']}, hostile=False)
+        if rng.random() < 0.3:
+            # a site-specific deny_info page: a template of our own in a private error_directory (a copy of the stock templates plus ours)
+            plan['custom_tpl'] = True
+            plan['conf']['lines'] = ['error_directory @RUN@', 'deny_info ERR_SIM_CUSTOM denyme', 'deny_info ERR_SIM_CUSTOM badhost'] + plan['conf']['lines']
         names = triggers(rng)
         plan['txns'] = [{'id': index * 100 + k, 'trig': rng.choice(names), 'canary': rng.choice(CANARIES)} for k in range(rng.randint(8, 24))]
         plan['_lists'] = ['txns']
@@ -46,6 +50,14 @@ class C33(hc.PProp):
     def build(self, plan):
         scn = self.new_scn(plan)
         scn.knob('peer.expect_timeout_us', 40000000)
+        if plan.get('custom_tpl'):
+            import os
+            tdir = '/repo/errors/templates'
+            for fn in sorted(os.listdir(tdir)):
+                if fn.startswith('ERR_') or fn == 'error-details.txt':
+                    scn.extra_files[fn] = open(os.path.join(tdir, fn), 'rb').read()
+            scn.extra_files['ERR_SIM_CUSTOM'] = (b'<html><head><title>blocked</title></head><body><h1>Blocked</h1><p>URL: <a href="%U">%U</a> (%u)</p><p>Host %H, method %M, client %a, '
+                                                 b'protocol %P</p><pre>%R</pre><address>%S</address></body></html>\n')
         scn.hosts = '10.0.0.1 ok.test\n10.0.0.3 refuse.test\n10.0.0.4 timeout.test\n10.0.0.1 nofwd.test\n'
         srv = scn.server('o1', '10.0.0.1', 80)
         srv.sub('rule stall has %s' % tok(b'/stall')).add('stall')
@@ -83,6 +95,8 @@ class C33(hc.PProp):
             elif k == 'bad_port_plain': req = hc.request_head(b'GET', b'http://ok.test:99999/' + c, H(b'ok.test'))
             elif k == 'unsup_version': req = b'GET http://ok.test/' + c + b' HTTP/3.0\r\nHost: ok.test\r\nX-Sim-Req: ' + rid + b'\r\n\r\n'
             elif k == 'expect_unsupported': req = hc.request_head(b'GET', b'http://ok.test/e', H(b'ok.test', [(b'Expect', b'x' + c.replace(b' ', b'')), (b'X-Note', c)]))
+            elif k == 'denied_hdr_value': req = hc.request_head(b'GET', b'http://ok.test/denyme/h', H(b'ok.test', [(b'X-Note', c), (b'User-Agent', b'ua ' + c)]))     # a custom deny_info page may dump the request (%R)
+            elif k == 'denied_host_markup': req = hc.request_head(b'GET', b'http://ok' + c.replace(b' ', b'').replace(b'/', b'') + b'.test/denyme/x', H(b'ok.test'))
             elif k == 'ftp_url': req = hc.request_head(b'GET', b'ftp://refuse.test/' + c, H(b'refuse.test'))
             elif k == 'urn_url': req = hc.request_head(b'GET', b'urn:' + c, H(b'ok.test'))
             else: req = hc.request_head(b'GET', b'http://ok.test/denyme', H(b'ok.test', [(b'X-' + c.replace(b' ', b''), b'v')]))
